@@ -31,6 +31,7 @@ type c20Scenario struct {
 	requests   int    // per client
 	mix        string // instant | busy | mixed | hang
 	early      bool   // clients start as soon as the first worker is up (traffic during master start-up)
+	pidns      bool   // the master runs as process 1 of a new PID namespace (a container's entry point)
 	execDelay  int    // ms, via strace execve delay injection
 	workerSlow int    // ms, worker start-up delay
 	kills      int    // external kill -9 of live workers during the run
@@ -153,7 +154,14 @@ func runC20Scenario(c *Ctx, bin string, sc c20Scenario, idx int) (res c20Result)
 	cmd.Stderr = stderr
 	cmd.Stdout = stderr
 	cmd.SysProcAttr = &syscall.SysProcAttr{Setpgid: true}
+	if sc.pidns {
+		cmd.SysProcAttr.Cloneflags = syscall.CLONE_NEWPID
+	}
 	if err := cmd.Start(); err != nil {
+		if sc.pidns {
+			res.err = "cannot start the master in a new PID namespace (inconclusive): " + err.Error()
+			return
+		}
 		res.err = "cannot start master: " + err.Error()
 		return
 	}
@@ -161,6 +169,9 @@ func runC20Scenario(c *Ctx, bin string, sc c20Scenario, idx int) (res c20Result)
 		// stop the master (SIGTERM lets it kill its workers), then make sure the group is gone
 		if cmd.Process != nil {
 			if mp := readPid(pidFile); mp > 0 {
+				if sc.pidns {
+					mp = cmd.Process.Pid
+				}
 				syscall.Kill(mp, syscall.SIGTERM)
 			}
 			done := make(chan struct{})
@@ -184,8 +195,12 @@ func runC20Scenario(c *Ctx, bin string, sc c20Scenario, idx int) (res c20Result)
 	var master int
 	deadline := time.Now().Add(40 * time.Second)
 	for time.Now().Before(deadline) {
-		if master = readPid(pidFile); master > 0 {
-			if w, _, _ := childrenOf(master); w >= sc.initP || (sc.early && w >= 1) {
+		master = readPid(pidFile)
+		if sc.pidns && master > 0 {
+			master = cmd.Process.Pid // the pid file holds the pid inside the namespace (1)
+		}
+		if master > 0 {
+			if w, _, _ := childrenOf(master); w >= minInt(sc.initP, sc.maxP) || (sc.early && w >= 1) {
 				break
 			}
 		}
@@ -205,7 +220,7 @@ func runC20Scenario(c *Ctx, bin string, sc c20Scenario, idx int) (res c20Result)
 		}
 	}
 	defer findPipes()
-	if w, _, _ := childrenOf(master); w < sc.initP && !sc.early {
+	if w, _, _ := childrenOf(master); w < minInt(sc.initP, sc.maxP) && !sc.early {
 		res.err = fmt.Sprintf("master started only %d of %d initial workers within 40s (inconclusive): %s", w, sc.initP, clip(stderr.String(), 300))
 		return
 	}
@@ -306,6 +321,37 @@ func runC20Scenario(c *Ctx, bin string, sc c20Scenario, idx int) (res c20Result)
 							rec.err = fmt.Sprintf("held: the connection was still open %d s after the request stalled (--timeout %d s)", 6*sc.timeout, sc.timeout)
 						}
 						conn.Close()
+					} else {
+						rec.err = "dial: " + err.Error()
+					}
+					rec.end = time.Now().UnixNano()
+					atomic.AddInt64(&outstanding, -1)
+					cmu.Lock()
+					recs = append(recs, rec)
+					cmu.Unlock()
+					continue
+				}
+				if sc.mix == "slowhead" && k == 0 && ci == 0 {
+					kind = "slowhead"
+				}
+				if kind == "slowhead" {
+					// a complete, well-formed request whose head arrives in two parts 0.7 x --timeout
+					// apart and whose handler then takes another 0.7 x --timeout (harness-side sleep):
+					// from the moment it was accepted it outlives --timeout, so it must not be
+					// answered as if nothing had happened
+					atomic.AddInt64(&outstanding, 1)
+					rec := reqRec{tok: tok0(idx, ci, k), kind: kind, start: time.Now().UnixNano()}
+					part := time.Duration(700*sc.timeout) * time.Millisecond
+					body, _ := json.Marshal(map[string]string{"VarInput": "", "SourceCode": c20Program("instant", rec.tok, rng)})
+					if conn, err := net.DialTimeout("tcp", fmt.Sprintf("127.0.0.1:%d", port), 5*time.Second); err == nil {
+						conn.Write([]byte(fmt.Sprintf("POST /?t=%s&sleep=%d HTTP/1.1\r\nHost: x\r\n", rec.tok, 700*sc.timeout)))
+						time.Sleep(part)
+						conn.Write([]byte(fmt.Sprintf("Content-Type: application/json\r\nContent-Length: %d\r\n\r\n", len(body))))
+						conn.Write(body)
+						conn.SetReadDeadline(time.Now().Add(time.Duration(6*sc.timeout) * time.Second))
+						data, _ := io.ReadAll(conn)
+						conn.Close()
+						rec.body = string(data)
 					} else {
 						rec.err = "dial: " + err.Error()
 					}
@@ -571,6 +617,11 @@ waitClients:
 			res.logProblems = append(res.logProblems, fmt.Sprintf("request %s was handled %d times", r.tok, n))
 		}
 		switch {
+		case r.kind == "slowhead":
+			res.stalls++
+			if strings.Contains(r.body, " 200 ") && strings.HasSuffix(strings.TrimSpace(r.body), r.tok) {
+				res.unexpected = append(res.unexpected, fmt.Sprintf("slowhead request %s lived %.1f s (head in two parts %.1f s apart, handler %.1f s) with --timeout %d s and was answered normally by a worker that was not terminated", r.tok, float64(r.end-r.start)/1e9, 0.7*float64(sc.timeout), 0.7*float64(sc.timeout), sc.timeout))
+			}
 		case r.kind == "stall-headers" || r.kind == "stall-body":
 			res.stalls++
 			if strings.HasPrefix(r.err, "held:") {
@@ -633,7 +684,7 @@ func readPid(path string) int {
 }
 
 func checkC20(c *Ctx) {
-	c.rule = "the real ZnPMServer master and real worker processes (pmharness: pkg/server + playground handler, hook H1) are started per scenario; scenarios = configurations 1 <= init <= max <= 4 x client concurrency 1..16 x request mix (instant, busy loops, one / two / three requests that outlive --timeout at the same moment, connections that carry no HTTP request so that the accepting worker ends with status 0, requests that stall after part of their headers / part of their body) x scripted kill -9 of one or several live workers at once x execve delay injected with strace (0/5/20/60/150 ms, widens the window between 'spawned' and 'registered') x slow worker start-up x traffic that begins while the master is still starting its initial workers. Monitors: /proc children of the master every 2 ms (live workers <= max at every sample; init <= live <= max at a quiescent point = no request outstanding and live set unchanged for 1.5 s); offline checker over the handler log written at the worker boundary (per-worker request intervals never overlap, every token handled once, response == own token, timed-out worker gone); race-detector reports of a -race build are recorded for information only. distinct_nontrivial = distinct (scenario parameters) + distinct 4-grams over {worker_start, req_start, req_end} events seen"
+	c.rule = "the real ZnPMServer master and real worker processes (pmharness: pkg/server + playground handler, hook H1) are started per scenario; scenarios = configurations 1 <= init <= max <= 4 x client concurrency 1..16 x request mix (instant, busy loops, one / two / three requests that outlive --timeout at the same moment, connections that carry no HTTP request so that the accepting worker ends with status 0, requests that stall after part of their headers / part of their body) x scripted kill -9 of one or several live workers at once x execve delay injected with strace (0/5/20/60/150 ms, widens the window between 'spawned' and 'registered') x slow worker start-up x traffic that begins while the master is still starting its initial workers x --init-procs above --max-procs x the master running as process 1 of its own PID namespace x a request whose head arrives slowly and whose handler is slow (together longer than --timeout). Monitors: /proc children of the master every 2 ms (live workers <= max at every sample; init <= live <= max at a quiescent point = no request outstanding and live set unchanged for 1.5 s); offline checker over the handler log written at the worker boundary (per-worker request intervals never overlap, every token handled once, response == own token, timed-out worker gone); race-detector reports of a -race build are recorded for information only. distinct_nontrivial = distinct (scenario parameters) + distinct 4-grams over {worker_start, req_start, req_end} events seen"
 	c.assumptions = []string{"a child that has been forked but has not exec'd yet is reported separately and not counted as a live worker", "strace execve delay injection only delays, it does not change behaviour", "not reaching a quiescent point within 60 s is inconclusive, not a violation"}
 	if _, err := exec.LookPath("strace"); err != nil {
 		c.Inconclusive("strace not found: " + err.Error())
@@ -650,6 +701,9 @@ func checkC20(c *Ctx) {
 		s.name = fmt.Sprintf("init%d-max%d-c%dx%d-%s-delay%d-slow%d-kill%dx%d-race%v", s.initP, s.maxP, s.clients, s.requests, s.mix, s.execDelay, s.workerSlow, s.kills, s.killBurst, s.race)
 		if s.early {
 			s.name += "-early"
+		}
+		if s.pidns {
+			s.name += "-pidns"
 		}
 		scenarios = append(scenarios, s)
 	}
@@ -673,6 +727,10 @@ func checkC20(c *Ctx) {
 		add(c20Scenario{initP: 3, maxP: 3, timeout: 2, clients: 6, requests: 8, mix: "busy", kills: 2, killBurst: 2})
 		add(c20Scenario{initP: 2, maxP: 3, timeout: 2, clients: 4, requests: 6, mix: "garbage"})
 		add(c20Scenario{initP: 2, maxP: 3, timeout: 1, clients: 4, requests: 5, mix: "stall"})
+		add(c20Scenario{initP: 2, maxP: 3, timeout: 2, clients: 3, requests: 4, mix: "slowhead"})
+		add(c20Scenario{initP: 4, maxP: 2, timeout: 2, clients: 6, requests: 6, mix: "busy"})
+		add(c20Scenario{initP: 20, maxP: 4, timeout: 2, clients: 8, requests: 6, mix: "mixed", kills: 2})
+		add(c20Scenario{initP: 2, maxP: 3, timeout: 2, clients: 4, requests: 6, mix: "mixed", pidns: true})
 		add(c20Scenario{initP: 3, maxP: 3, timeout: 2, clients: 6, requests: 6, mix: "busy", execDelay: 60, early: true})
 		add(c20Scenario{initP: 2, maxP: 4, timeout: 2, clients: 8, requests: 6, mix: "mixed", execDelay: 40, early: true})
 		add(c20Scenario{initP: 4, maxP: 4, timeout: 2, clients: 4, requests: 6, mix: "busy", early: true})
@@ -791,7 +849,7 @@ func checkC20(c *Ctx) {
 		}
 		if !r.quiescent {
 			c.Inconclusive(sc.name + ": no quiescent point reached within 60 s")
-		} else if r.liveQuiet < sc.initP || r.liveQuiet > sc.maxP {
+		} else if r.liveQuiet < minInt(sc.initP, sc.maxP) || r.liveQuiet > sc.maxP {
 			c.Violation("pool:quiescent:"+sc.name, fmt.Sprintf("%s: %d live workers at the quiescent point, expected between --init-procs %d and --max-procs %d", sc.name, r.liveQuiet, sc.initP, sc.maxP), rp)
 		}
 		for _, p := range r.logProblems {
@@ -818,4 +876,11 @@ func checkC20(c *Ctx) {
 	if delayed > 0 && totalHits < 3 {
 		c.Inconclusive(fmt.Sprintf("the window 'all workers busy while a spawn is in flight' was observed only %d times: the <= max clause is not exercised enough", totalHits))
 	}
+}
+
+func minInt(a, b int) int {
+	if a < b {
+		return a
+	}
+	return b
 }
